@@ -122,6 +122,16 @@ def edits():
         n = pick(m, rnd, lambda r: 'c0' in r.get('inherit', [])); return n, ['build', 'dist']
     def e_setup(m, rnd):
         n = pick(m, rnd); m['recipes'][n]['buildSetup'] = 'helper() { echo h; }\n'; return n, ['build', 'dist']
+    def e_fragment(key, labels):
+        def f(m, rnd):
+            n = pick(m, rnd, (lambda r: 'checkoutScript' in r) if key.startswith('checkout') else (lambda r: True))
+            if n is None: return None, []
+            m['recipes'][n][key] = m['recipes'][n].get(key, '') + 'echo %s-extra\n' % key; return n, labels
+        return f
+    def e_class_finalize(m, rnd):
+        if 'classes/c0.yaml' not in m['files']: return None, []
+        m['files']['classes/c0.yaml'] += 'buildFinalize: |\n  echo class-finalize\n'
+        n = pick(m, rnd, lambda r: 'c0' in r.get('inherit', [])); return n, ['build', 'dist']
     def e_var_value(step):
         def f(m, rnd):
             key = {'src': 'checkoutVars', 'build': 'buildVars', 'dist': 'packageVars'}[step]
@@ -177,7 +187,8 @@ def edits():
         m['recipes'][n]['checkoutSCM']['submodules'] = ['a', 'b']; m['recipes'][n]['checkoutSCM']['recurseSubmodules'] = True
         return n, ['src', 'build', 'dist']
     return [('build script', e_script), ('package script', e_pkg_script), ('checkout script', e_checkout_script), ('class script', e_class_script),
-            ('buildSetup added', e_setup), ('value of a checkoutVars variable', e_var_value('src')), ('value of a buildVars variable', e_var_value('build')),
+            ('buildSetup added', e_setup), ('buildFinalize added', e_fragment('buildFinalize', ['build', 'dist'])), ('packageFinalize added', e_fragment('packageFinalize', ['dist'])),
+            ('checkoutFinalize added', e_fragment('checkoutFinalize', ['src', 'build', 'dist'])), ('packageSetup added', e_fragment('packageSetup', ['dist'])), ('buildFinalize added to an inherited class', e_class_finalize), ('value of a checkoutVars variable', e_var_value('src')), ('value of a buildVars variable', e_var_value('build')),
             ('value of a packageVars variable', e_var_value('dist')), ('variable added to buildVars', e_var_list), ('tool path', e_tool_path), ('tool libs', e_tool_libs), ('tool libs order', e_tool_libs_order),
             ("content of a file included with $<'file'>", e_include('recipes/inc_lit.txt', 'lit')), ('content of a file included with $<<file>>', e_include('recipes/inc_file.txt', 'file')),
             ('content of a file included with $<@glob@>', e_include('recipes/inc_glob_a.txt', 'glob')),
